@@ -97,6 +97,9 @@ def gen_case(rng, tier):
     case['outcomes'] = H.gen_outcomes(rng, case, KINDS)
     case['workers'] = rng.choice([1, 2, 2, 3, 4, 8, 16])
     case['init'] = {}
+    if rng.random() < 0.12:
+        # task objects whose truth value is false
+        case['falsy'] = rng.sample(names, rng.randint(1, min(2, len(names))))
     if rng.random() < 0.35:
         for name in rng.sample(names, rng.randint(1, len(names))):
             case['init'][name] = rng.choice(['DONE', 'DONE', 'FAILED',
@@ -203,6 +206,13 @@ def judge(res, case, rec, extra):
         rec.violation(f'queue-not-empty-{tag}', f'{res.queue_left[0]} items '
                       f'left in the work queue after schedule() '
                       f'{res.outcome}', where)
+    elif res.queue_left and res.queue_left[1]:
+        # nothing queued, but the queue still counts unfinished items: the
+        # next join() on it (the next schedule() with this backend) blocks
+        rec.violation(f'queue-counts-unfinished-items-{tag}',
+                      f'{res.queue_left[1]} items taken from the work queue '
+                      f'were never marked done after schedule() '
+                      f'{res.outcome}', where)
     if res.deaths:
         rec.count('worker_threads_died')
 
@@ -257,8 +267,23 @@ def run_random(spec, rec):
             repeat = 2 if (sidx == 1 and not case['cyclic']) else 1
             if repeat == 2:
                 rec.count('scheduler_used_twice')
-            res = H.run_controlled(case, strat, fine=fine, repeat=repeat)
-            if fine is None and repeat == 1:
+            then = None
+            if sidx == 2 and (case['cyclic'] or case['init']) \
+                    and not case.get('groups'):
+                # whatever the first call did (it may have raised), the same
+                # backend object must be usable for another, harmless graph
+                rng2 = core.rng_for(seed, PROP, 'then', idx)
+                then = H.gen_dag(rng2, len(case['tasks']),
+                                 p_hard=rng2.choice([0.2, 0.5]), p_soft=0.2)
+                then['outcomes'] = {n: 'ok' for n in then['tasks']}
+                then['workers'] = case['workers']
+                rec.count('backend_reused_after_the_first_call')
+            res = H.run_controlled(dict(case), strat, fine=fine,
+                                   repeat=repeat, then=then,
+                                   then_always=True)
+            if then is not None and res.first_error:
+                rec.count('backend_reused_after_an_error')
+            if fine is None and repeat == 1 and then is None:
                 est = max(10, res.steps)
             rec.count('evaluations')
             if res.outcome == 'lost':
@@ -267,9 +292,10 @@ def run_random(spec, rec):
                 continue
             rec.count('controlled_runs')
             rec.count('scheduling_points', res.steps)
-            judge(res, dict(case, _repeat=repeat > 1), rec,
-                  {'engine': 'controlled', 'choices': res.choices,
-                   'repeat': repeat, 'hashseed': spec.get('hashseed', 0)})
+            judge(res, dict(case, _repeat=repeat > 1 or then is not None),
+                  rec, {'engine': 'controlled', 'choices': res.choices,
+                        'repeat': repeat, 'then': then,
+                        'hashseed': spec.get('hashseed', 0)})
             rec.seen((case_class(case), res.trace_hash))
         if idx == spec['lo']:
             rec.sample({'case': case, 'outcome': res.outcome,
@@ -421,7 +447,8 @@ def replay(case, rec):
                                   'choices': res.choices})
         return
     res = H.run_controlled(cas, C.Replay(case['choices']),
-                           repeat=case.get('repeat', 1))
+                           repeat=case.get('repeat', 1),
+                           then=case.get('then'), then_always=True)
     judge(res, cas, rec, {'engine': 'controlled',
                           'choices': case['choices'],
                           'repeat': case.get('repeat', 1)})
